@@ -802,7 +802,16 @@ func c10(c *Ctx) {
 			r.Check("elements:"+F+":filter-args", paramIndex(cl, a[1]) == 0 && okS && okT, uc.Pos(), "(name, &elem.Source, &elem.Tags) or results assigned back: "+whyS+"; "+whyT)
 			bad := false
 			eachInstr(cl, func(in ssa.Instruction) {
+				isStore := false
 				if _, ok := in.(*ssa.MapUpdate); ok {
+					isStore = true
+				}
+				if cx, ok := in.(*ssa.Call); ok {
+					if cal := staticCallee(cx); cal != nil && strings.HasPrefix(cal.Name(), "Merge") && isAggType2(strings.TrimPrefix(cal.Name(), "Merge")) {
+						isStore = true
+					}
+				}
+				if isStore {
 					okc := false
 					for _, cd := range condsFor(in.Block()) {
 						cd = normCond(cd)
@@ -856,6 +865,13 @@ func c10(c *Ctx) {
 					m, k = x.Map, x.Key
 				case *ssa.Lookup:
 					m, k = x.X, x.Index
+				case *ssa.Call:
+					// merged through MetricMap.Merge<T>(name, tagsKey, element): the key is the second argument
+					if cal := staticCallee(x); cal != nil && strings.HasPrefix(cal.Name(), "Merge") && isAggType2(strings.TrimPrefix(cal.Name(), "Merge")) && len(x.Call.Args) == 4 {
+						nKeys++
+						keyLeaves(x.Call.Args[2], 0)
+					}
+					return
 				default:
 					return
 				}
